@@ -156,3 +156,132 @@ Theorem attr_value_literals : forall av,
   (forall d mn mx h, av_type av = VInt -> attr_value (DefInt d mn mx h) av = Ok (ValInt (av_int av))) /\
   (forall d mn mx h, av_type av = VHex -> attr_value (DefInt d mn mx h) av = Ok (ValInt (av_hex av))).
 Proof. intros av. unfold attr_value. repeat split; intros; rewrite H; reflexivity. Qed.
+
+(* ---------------- the dedicated message fields come from the well-known attributes ---------------- *)
+Section MsgFields.
+  Variables (d : doc) (amap : list (string * attr_def)).
+
+  Definition msrc (name : string) (v : attr_val) (m : message) : Prop :=
+    exists av ad, In av (d_attrvals d) /\ av_kind av = OMessage /\ av_name av = name /\ av_msg av = m_canid m /\
+                  lookup String.eqb name amap = Some ad /\ attr_value ad av = Ok v.
+  Definition MF (m : message) : Prop :=
+    (m_cycle m <> 0 -> msrc "GenMsgCycleTime" (ValInt (m_cycle m)) m) /\
+    (m_delay m <> 0 -> msrc "GenMsgDelayTime" (ValInt (m_delay m)) m) /\
+    (m_startdelay m <> 0 -> msrc "GenMsgStartDelayTime" (ValInt (m_startdelay m)) m) /\
+    (m_sendtype m <> 0 -> exists s, msrc "GenMsgSendType" (ValString s) m /\ m_sendtype m = msg_send_type_from_dbc s).
+
+  Lemma special_of_name : forall name sp, special_of name = Some sp ->
+    name = match sp with
+           | SpMsgCycle => "GenMsgCycleTime" | SpMsgDelay => "GenMsgDelayTime" | SpMsgStartDelay => "GenMsgStartDelayTime"
+           | SpMsgSend => "GenMsgSendType" | SpSigStart => "GenSigStartValue" | SpSigSend => "GenSigSendType" end%string.
+  Proof.
+    intros name sp H. unfold special_of in H.
+    repeat match type of H with (if String.eqb ?a ?b then _ else _) = _ =>
+      destruct (String.eqb a b) eqn:E; [apply String.eqb_eq in E; inversion H; subst; reflexivity|clear E] end.
+    discriminate H.
+  Qed.
+
+  Lemma MF_same : forall m m', m_canid m' = m_canid m -> m_cycle m' = m_cycle m -> m_delay m' = m_delay m ->
+    m_startdelay m' = m_startdelay m -> m_sendtype m' = m_sendtype m -> MF m -> MF m'.
+  Proof. intros m m' H0 H1 H2 H3 H4 H. unfold MF, msrc in *. rewrite H0, H1, H2, H3, H4. exact H. Qed.
+
+  Lemma assign_message_MF : forall av ad v m m',
+    In av (d_attrvals d) -> av_kind av = OMessage -> av_msg av = m_canid m ->
+    lookup String.eqb (av_name av) amap = Some ad -> attr_value ad av = Ok v ->
+    MF m -> assign_message (av_name av) ad v m = Ok m' -> MF m' /\ m_canid m' = m_canid m.
+  Proof.
+    intros av ad v m m' Hin Hk Hmsg Hl Hv HM H. unfold assign_message in H.
+    destruct (special_of (av_name av)) as [sp|] eqn:Es.
+    - pose proof (special_of_name _ _ Es) as Hn.
+      assert (Hsrc : forall x, msrc (av_name av) x m -> forall m2, m_canid m2 = m_canid m -> msrc (av_name av) x m2).
+      { intros x [a [b Hx]] m2 Hc. exists a, b. rewrite Hc. exact Hx. }
+      assert (Hme : msrc (av_name av) v m) by (exists av, ad; auto 10).
+      destruct HM as [M1 [M2 [M3 M4]]].
+      destruct sp; try (inversion H; subst; split; [repeat split; assumption|reflexivity]);
+        destruct v as [s|z|f]; try discriminate H; inversion H; subst m'; clear H; (split; [|reflexivity]);
+        unfold MF, msrc in *; cbn [m_cycle m_delay m_startdelay m_sendtype m_canid set_m_times]; rewrite Hn in *.
+      + repeat split; try assumption. intros _. exists av, ad. auto 10.
+      + repeat split; try assumption. intros _. exists av, ad. auto 10.
+      + repeat split; try assumption. intros _. exists av, ad. auto 10.
+      + repeat split; try assumption. intros _. exists s. split; [exists av, ad; auto 10|reflexivity].
+    - apply bind_ok in H. destruct H as [a [_ H]]. inversion H; subst. split; [|reflexivity].
+      eapply MF_same; [| | | | |exact HM]; reflexivity.
+  Qed.
+
+  Lemma update_first_inv : forall {A} (p : A -> bool) (f : A -> result A) (Q : A -> Prop) l l',
+    update_first p f l = Ok l' -> Forall Q l -> (forall x y, In x l -> p x = true -> f x = Ok y -> Q x -> Q y) -> Forall Q l'.
+  Proof.
+    intros A p f Q l. induction l as [|x r IH]; intros l' H HQ Hf; cbn [update_first] in H; [inversion H; constructor|].
+    inversion HQ as [|? ? Hx Hr]; subst. destruct (p x) eqn:E.
+    - apply bind_ok in H. destruct H as [y [Hy H]]. inversion H; subst. constructor; [eapply Hf; eauto; left; reflexivity|assumption].
+    - apply bind_ok in H. destruct H as [r' [Hr' H]]. inversion H; subst. constructor; [assumption|].
+      eapply IH; eauto. intros a b Ha. apply Hf. right. assumption.
+  Qed.
+  Lemma update_nth_inv : forall {A} (f : A -> result A) (Q : A -> Prop) n l l',
+    update_nth n f l = Ok l' -> Forall Q l -> (forall x y, f x = Ok y -> Q x -> Q y) -> Forall Q l'.
+  Proof.
+    intros A f Q n. induction n as [|n IH]; intros [|x r] l' H HQ Hf; cbn [update_nth] in H; try (inversion H; constructor; fail).
+    - inversion HQ; subst. apply bind_ok in H. destruct H as [y [Hy H]]. inversion H; subst. constructor; [eapply Hf; eauto|assumption].
+    - inversion HQ; subst. apply bind_ok in H. destruct H as [r' [Hr' H]]. inversion H; subst. constructor; [assumption|eapply IH; eauto].
+  Qed.
+
+  Lemma astep_MF : forall sm b0 av b1, In av (d_attrvals d) -> astep amap sm (Ok b0) av = Ok b1 ->
+    Forall MF (b_messages b0) -> Forall MF (b_messages b1).
+  Proof.
+    intros sm b0 av b1 Hin H HM. unfold astep in H. cbn [bind] in H.
+    destruct (lookup String.eqb (av_name av) amap) as [ad|] eqn:El; [|inversion H; subst; assumption].
+    destruct (attr_value ad av) as [v|w] eqn:Ev; cbn [bind] in H; [|discriminate].
+    destruct (av_kind av) eqn:Ek.
+    - apply bind_ok in H. destruct H as [a [_ H]]. inversion H; subst. exact HM.
+    - destruct (String.eqb (av_node av) dummy_node); [inversion H; subst; assumption|].
+      apply bind_ok in H. destruct H as [ns [_ H]]. inversion H; subst. exact HM.
+    - apply bind_ok in H. destruct H as [ms [Hu H]]. inversion H; subst. cbn [b_messages set_b_messages].
+      eapply update_first_inv; [exact Hu|exact HM|].
+      intros x y _ Hp Hf Hx. apply Z.eqb_eq in Hp. symmetry in Hp.
+      destruct (assign_message_MF av ad v x y Hin Ek Hp El Ev Hx Hf) as [Hy _]. exact Hy.
+    - destruct (lookup key_eqb _ sm) as [[mpos sid]|]; [|inversion H; subst; assumption].
+      apply bind_ok in H. destruct H as [ms [Hu H]]. inversion H; subst. cbn [b_messages set_b_messages].
+      eapply update_nth_inv; [exact Hu|exact HM|].
+      intros x y Hf Hx. apply bind_ok in Hf. destruct Hf as [ss [_ Hf]]. inversion Hf; subst.
+      eapply MF_same; [| | | | |exact Hx]; reflexivity.
+    - inversion H; subst. exact HM.
+  Qed.
+End MsgFields.
+
+Lemma import_messages_zero_fields : forall env nodes dms st msgs st' msgs',
+  fold_left (fun acc dm => do a <- acc; import_message env a nodes dm) dms (Ok (st, msgs)) = Ok (st', msgs') ->
+  Forall (fun m => m_cycle m = 0 /\ m_delay m = 0 /\ m_startdelay m = 0 /\ m_sendtype m = 0) msgs ->
+  Forall (fun m => m_cycle m = 0 /\ m_delay m = 0 /\ m_startdelay m = 0 /\ m_sendtype m = 0) msgs'.
+Proof.
+  intros env nodes dms. induction dms as [|dm r IH]; intros st msgs st' msgs' H HZ; cbn [fold_left] in H.
+  - inversion H; subst. assumption.
+  - cbn [bind] in H. destruct (import_message env (st, msgs) nodes dm) as [[st1 msgs1]|w] eqn:E.
+    2:{ rewrite fold_result_err in H by reflexivity. discriminate. }
+    apply import_message_inv in E. destruct E as [m [sigs [Hm [_ [_ [_ [_ [_ [Z1 [Z2 [Z3 Z4]]]]]]]]]]]. 
+    eapply IH; [exact H|]. subst msgs1. apply Forall_app. split; [assumption|]. constructor; [|constructor].
+    destruct Z4 as [Z4 _] || idtac. auto.
+Qed.
+
+Lemma astep_fold_MF : forall d amap sm avs b0 b1, incl avs (d_attrvals d) ->
+  fold_left (astep amap sm) avs (Ok b0) = Ok b1 -> Forall (MF d amap) (b_messages b0) -> Forall (MF d amap) (b_messages b1).
+Proof.
+  intros d amap sm avs. induction avs as [|av r IH]; intros b0 b1 Hi H HM; cbn [fold_left] in H; [inversion H; subst; assumption|].
+  destruct (astep amap sm (Ok b0) av) as [b0'|w] eqn:E.
+  2:{ rewrite fold_result_err in H; [discriminate|intros x w'; reflexivity]. }
+  eapply IH; [intros x Hx; apply Hi; right; assumption|exact H|].
+  eapply astep_MF; [apply Hi; left; reflexivity|exact E|exact HM].
+Qed.
+
+Theorem import_message_fields : forall d b, import d = Ok b ->
+  exists amap, def_map d = Ok amap /\ Forall (MF d amap) (b_messages b).
+Proof.
+  intros d b H. apply import_inv in H.
+  destruct H as [reg [es [se [nodes [st4 [msgs [b1 [_ [_ [_ [Hm [Hb Hbb]]]]]]]]]]]].
+  rewrite import_attributes_unfold in Hb. apply bind_ok in Hb. destruct Hb as [amap [Hd Hf]].
+  exists amap. split; [assumption|].
+  assert (Hbm : b_messages b = b_messages b1) by (subst b; destruct (existsb _ _); reflexivity).
+  rewrite Hbm. eapply astep_fold_MF; [apply incl_refl|exact Hf|]. cbn [b_messages].
+  pose proof (import_messages_zero_fields _ _ _ _ _ _ _ Hm (Forall_nil _)) as HZ.
+  eapply Forall_impl; [|exact HZ]. intros m [Z1 [Z2 [Z3 Z4]]]. unfold MF. rewrite Z1, Z2, Z3, Z4.
+  repeat split; intros Hc; exfalso; apply Hc; reflexivity.
+Qed.
